@@ -84,6 +84,7 @@ def handle (op : String) (j : Json) : Option (R Json) :=
         | none => pure Json.null
         | some parent =>
           pure (jobj [("tests", jbool (elimTests Gen.elimShape r parent)), ("tests_found", jbool (elimTests ElimShape.found r parent)),
+                      ("tests_repaired", jbool (elimTests ElimShape.repaired r parent)),
                       ("F1", jbool (scope_C07_F1 r parent)), ("F2", jbool (scope_C07_F2 r parent))])
   | "c07_shapes" => some do
       pure (jobj [("merge_expected", jbool (Gen.mergeShape == MergeShape.expected)),
@@ -91,6 +92,7 @@ def handle (op : String) (j : Json) : Option (R Json) :=
                   ("cond_route_ok", jbool Gen.joinCondShape.OK),
                   ("elim_found", jbool (Gen.elimShape == ElimShape.found)),
                   ("elim_repaired", jbool (Gen.elimShape == ElimShape.repaired)),
+                  ("elim_current", jbool (Gen.elimShape == ElimShape.current)),
                   ("object_query_union", jbool (Gen.objectQueryShape == ObjectQueryShape.union)),
                   ("translated", jbool Gen.joinTranslated)])
   | _ => none
